@@ -103,3 +103,78 @@ package vers
 //@   ensures both: interval.exact == "" && interval.exclude == "" && interval.lower != "" && interval.upper != "" ==> len(result) == 1 && result[0] == (interval.lowerInclusive ? ">=" : ">") + interval.lower + " " + (interval.upperInclusive ? "<=" : "<") + interval.upper   [C04]
 //@   ensures lower-only: interval.exact == "" && interval.exclude == "" && interval.lower != "" && interval.upper == "" ==> len(result) == 1 && result[0] == (interval.lowerInclusive ? ">=" : ">") + interval.lower   [C04]
 //@   ensures upper-only: interval.exact == "" && interval.exclude == "" && interval.lower == "" && interval.upper != "" ==> len(result) == 1 && result[0] == (interval.upperInclusive ? "<=" : "<") + interval.upper   [C04]
+
+// the same four shapes for the other comparator-pair schemes (only the separator and the equality spelling differ)
+//@ func intervalToNpmRanges
+//@   ensures exact: interval.exact != "" ==> len(result) == 1 && result[0] == "=" + interval.exact   [C04]
+//@   ensures both: interval.exact == "" && interval.exclude == "" && interval.lower != "" && interval.upper != "" ==> len(result) == 1 && result[0] == (interval.lowerInclusive ? ">=" : ">") + interval.lower + " " + (interval.upperInclusive ? "<=" : "<") + interval.upper   [C04]
+//@   ensures lower-only: interval.exact == "" && interval.exclude == "" && interval.lower != "" && interval.upper == "" ==> len(result) == 1 && result[0] == (interval.lowerInclusive ? ">=" : ">") + interval.lower   [C04]
+//@   ensures upper-only: interval.exact == "" && interval.exclude == "" && interval.lower == "" && interval.upper != "" ==> len(result) == 1 && result[0] == (interval.upperInclusive ? "<=" : "<") + interval.upper   [C04]
+//@   ensures exclusion-elsewhere: interval.exact == "" && interval.exclude != "" ==> len(result) == 0   [C04]
+
+//@ func intervalToAlpineRanges
+//@   ensures exact: interval.exact != "" ==> len(result) == 1 && result[0] == "=" + interval.exact   [C04]
+//@   ensures both: interval.exact == "" && interval.exclude == "" && interval.lower != "" && interval.upper != "" ==> len(result) == 1 && result[0] == (interval.lowerInclusive ? ">=" : ">") + interval.lower + " " + (interval.upperInclusive ? "<=" : "<") + interval.upper   [C04]
+//@   ensures lower-only: interval.exact == "" && interval.exclude == "" && interval.lower != "" && interval.upper == "" ==> len(result) == 1 && result[0] == (interval.lowerInclusive ? ">=" : ">") + interval.lower   [C04]
+//@   ensures upper-only: interval.exact == "" && interval.exclude == "" && interval.lower == "" && interval.upper != "" ==> len(result) == 1 && result[0] == (interval.upperInclusive ? "<=" : "<") + interval.upper   [C04]
+
+//@ func intervalToCargoRanges
+//@   ensures exact: interval.exact != "" ==> len(result) == 1 && result[0] == "=" + interval.exact   [C04]
+//@   ensures both: interval.exact == "" && interval.exclude == "" && interval.lower != "" && interval.upper != "" ==> len(result) == 1 && result[0] == (interval.lowerInclusive ? ">=" : ">") + interval.lower + "," + (interval.upperInclusive ? "<=" : "<") + interval.upper   [C04]
+//@   ensures lower-only: interval.exact == "" && interval.exclude == "" && interval.lower != "" && interval.upper == "" ==> len(result) == 1 && result[0] == (interval.lowerInclusive ? ">=" : ">") + interval.lower   [C04]
+//@   ensures upper-only: interval.exact == "" && interval.exclude == "" && interval.lower == "" && interval.upper != "" ==> len(result) == 1 && result[0] == (interval.upperInclusive ? "<=" : "<") + interval.upper   [C04]
+//@   ensures exclusion-elsewhere: interval.exact == "" && interval.exclude != "" ==> len(result) == 0   [C04]
+
+//@ func intervalToDebianRanges
+//@   ensures exact: interval.exact != "" ==> len(result) == 1 && result[0] == "=" + interval.exact   [C04]
+//@   ensures both: interval.exact == "" && interval.exclude == "" && interval.lower != "" && interval.upper != "" ==> len(result) == 1 && result[0] == (interval.lowerInclusive ? ">=" : ">") + interval.lower + "," + (interval.upperInclusive ? "<=" : "<") + interval.upper   [C04]
+//@   ensures lower-only: interval.exact == "" && interval.exclude == "" && interval.lower != "" && interval.upper == "" ==> len(result) == 1 && result[0] == (interval.lowerInclusive ? ">=" : ">") + interval.lower   [C04]
+//@   ensures upper-only: interval.exact == "" && interval.exclude == "" && interval.lower == "" && interval.upper != "" ==> len(result) == 1 && result[0] == (interval.upperInclusive ? "<=" : "<") + interval.upper   [C04]
+//@   ensures exclusion-elsewhere: interval.exact == "" && interval.exclude != "" ==> len(result) == 0   [C04]
+
+//@ func intervalToGemRanges
+//@   ensures exact: interval.exact != "" ==> len(result) == 1 && result[0] == "=" + interval.exact   [C04]
+//@   ensures both: interval.exact == "" && interval.exclude == "" && interval.lower != "" && interval.upper != "" ==> len(result) == 1 && result[0] == (interval.lowerInclusive ? ">=" : ">") + interval.lower + "," + (interval.upperInclusive ? "<=" : "<") + interval.upper   [C04]
+//@   ensures lower-only: interval.exact == "" && interval.exclude == "" && interval.lower != "" && interval.upper == "" ==> len(result) == 1 && result[0] == (interval.lowerInclusive ? ">=" : ">") + interval.lower   [C04]
+//@   ensures upper-only: interval.exact == "" && interval.exclude == "" && interval.lower == "" && interval.upper != "" ==> len(result) == 1 && result[0] == (interval.upperInclusive ? "<=" : "<") + interval.upper   [C04]
+//@   ensures exclusion-elsewhere: interval.exact == "" && interval.exclude != "" ==> len(result) == 0   [C04]
+
+//@ func intervalToRpmRanges
+//@   ensures exact: interval.exact != "" ==> len(result) == 1 && result[0] == "=" + interval.exact   [C04]
+//@   ensures both: interval.exact == "" && interval.exclude == "" && interval.lower != "" && interval.upper != "" ==> len(result) == 1 && result[0] == (interval.lowerInclusive ? ">=" : ">") + interval.lower + "," + (interval.upperInclusive ? "<=" : "<") + interval.upper   [C04]
+//@   ensures lower-only: interval.exact == "" && interval.exclude == "" && interval.lower != "" && interval.upper == "" ==> len(result) == 1 && result[0] == (interval.lowerInclusive ? ">=" : ">") + interval.lower   [C04]
+//@   ensures upper-only: interval.exact == "" && interval.exclude == "" && interval.lower == "" && interval.upper != "" ==> len(result) == 1 && result[0] == (interval.upperInclusive ? "<=" : "<") + interval.upper   [C04]
+//@   ensures exclusion-elsewhere: interval.exact == "" && interval.exclude != "" ==> len(result) == 0   [C04]
+
+//@ func intervalToPypiRanges
+//@   ensures exact: interval.exact != "" ==> len(result) == 1 && result[0] == "==" + interval.exact   [C04]
+//@   ensures both: interval.exact == "" && interval.exclude == "" && interval.lower != "" && interval.upper != "" ==> len(result) == 1 && result[0] == (interval.lowerInclusive ? ">=" : ">") + interval.lower + ", " + (interval.upperInclusive ? "<=" : "<") + interval.upper   [C04]
+//@   ensures lower-only: interval.exact == "" && interval.exclude == "" && interval.lower != "" && interval.upper == "" ==> len(result) == 1 && result[0] == (interval.lowerInclusive ? ">=" : ">") + interval.lower   [C04]
+//@   ensures upper-only: interval.exact == "" && interval.exclude == "" && interval.lower == "" && interval.upper != "" ==> len(result) == 1 && result[0] == (interval.upperInclusive ? "<=" : "<") + interval.upper   [C04]
+//@   ensures exclusion-elsewhere: interval.exact == "" && interval.exclude != "" ==> len(result) == 0   [C04]
+
+// maven: bracket notation (C05 gives the brackets their meaning)
+//@ func intervalToMavenRanges
+//@   ensures exact: interval.exact != "" ==> len(result) == 1 && result[0] == "[" + interval.exact + "]"   [C04]
+//@   ensures both: interval.exact == "" && interval.exclude == "" && interval.lower != "" && interval.upper != "" ==> len(result) == 1 && result[0] == (interval.lowerInclusive ? "[" : "(") + interval.lower + "," + interval.upper + (interval.upperInclusive ? "]" : ")")   [C04]
+//@   ensures lower-only: interval.exact == "" && interval.exclude == "" && interval.lower != "" && interval.upper == "" ==> len(result) == 1 && result[0] == (interval.lowerInclusive ? "[" : "(") + interval.lower + ",)"   [C04]
+//@   ensures upper-only: interval.exact == "" && interval.exclude == "" && interval.lower == "" && interval.upper != "" ==> len(result) == 1 && result[0] == "(," + interval.upper + (interval.upperInclusive ? "]" : ")")   [C04]
+
+// nuget: brackets where NuGet has them, comparator list otherwise
+//@ func intervalToNugetRanges
+//@   ensures exact: interval.exact != "" ==> len(result) == 1 && result[0] == "[" + interval.exact + "]"   [C04]
+//@   ensures lower-only: interval.exact == "" && interval.exclude == "" && interval.lower != "" && interval.upper == "" ==> len(result) == 1 && result[0] == (interval.lowerInclusive ? "[" + interval.lower + ",)" : ">" + interval.lower + ",")   [C04]
+//@   ensures upper-only: interval.exact == "" && interval.exclude == "" && interval.lower == "" && interval.upper != "" ==> len(result) == 1 && result[0] == (interval.upperInclusive ? "(," + interval.upper + "]" : "<" + interval.upper + ",")   [C04]
+//@   ensures both: interval.exact == "" && interval.exclude == "" && interval.lower != "" && interval.upper != "" ==> len(result) == 1 && result[0] == (interval.lowerInclusive ? ">=" : ">") + interval.lower + "," + (interval.upperInclusive ? "<=" : "<") + interval.upper   [C04]
+//@   ensures exclusion-elsewhere: interval.exact == "" && interval.exclude != "" ==> len(result) == 0   [C04]
+
+// golang: the same comparator pair with the v prefix Go modules require
+//@ spec vp(s string) string = s == "" ? s : (strings.HasPrefix(s, "v") ? s : "v" + s)
+//@ func ensureVPrefix
+//@   ensures result == vp(version)   [C04]
+//@ func intervalToGolangRanges
+//@   ensures exact: interval.exact != "" ==> len(result) == 1 && result[0] == "=" + vp(interval.exact)   [C04]
+//@   ensures both: interval.exact == "" && interval.exclude == "" && interval.lower != "" && interval.upper != "" ==> len(result) == 1 && result[0] == (interval.lowerInclusive ? ">=" : ">") + vp(interval.lower) + " " + (interval.upperInclusive ? "<=" : "<") + vp(interval.upper)   [C04]
+//@   ensures lower-only: interval.exact == "" && interval.exclude == "" && interval.lower != "" && interval.upper == "" ==> len(result) == 1 && result[0] == (interval.lowerInclusive ? ">=" : ">") + vp(interval.lower)   [C04]
+//@   ensures upper-only: interval.exact == "" && interval.exclude == "" && interval.lower == "" && interval.upper != "" ==> len(result) == 1 && result[0] == (interval.upperInclusive ? "<=" : "<") + vp(interval.upper)   [C04]
+//@   ensures exclusion-elsewhere: interval.exact == "" && interval.exclude != "" ==> len(result) == 0   [C04]
